@@ -353,14 +353,19 @@ def rel(x: int, cap: int | None) -> str:
 def send(app: Any, impl: Any, headers: dict[str, str], wire: bytes, *, chunked: bool) -> tuple[Any, list[bytes], list[Any]]:
     from lib import httpdrv
 
-    del _captured[:]
-    before = len(impl.inv)
-    _probe.clear()
-    signal.setitimer(signal.ITIMER_REAL, WATCHDOG_S)
-    try:
-        r = httpdrv.call(app, "POST", "/blob", headers, wire, chunked=chunked)
-    finally:
-        signal.setitimer(signal.ITIMER_REAL, 0)
+    # A watchdog expiry without the logical no-progress confirmation says nothing about the code (a loaded machine,
+    # sixteen shards decoding 128 MiB-window frames at once): such a request is sent again under a longer watchdog.
+    for wd in (WATCHDOG_S, 10 * WATCHDOG_S):
+        del _captured[:]
+        before = len(impl.inv)
+        _probe.clear()
+        signal.setitimer(signal.ITIMER_REAL, wd)
+        try:
+            r = httpdrv.call(app, "POST", "/blob", headers, wire, chunked=chunked)
+        finally:
+            signal.setitimer(signal.ITIMER_REAL, 0)
+        if not isinstance(r.exc, Watchdog) or _probe.get("no_progress_confirmed"):
+            break
     return r, list(_captured), list(impl.inv[before:])
 
 
